@@ -59,6 +59,8 @@ def main():
         demo_dst = os.path.join(wt, demo_dir, "zz_seed_demo_test.go")
         tests = re.findall(r"^func (Test\w+)\(", open(demo_src).read(), re.M) if demo_src and demo_src.endswith("_test.go") else []
         run_demo = ["go", "test", "-vet=off", "-count=1", "-run", "^(%s)$" % "|".join(tests), "./" + demo_dir + "/"]
+        if "-race" in (meta.get("demo_cmd") or ""):
+            run_demo.insert(2, "-race")
         if verify:
             if not tests:
                 out["verify"] = "no demo test found"
